@@ -1032,6 +1032,13 @@ func validIDResult(ix *PkgIndex, fn *FuncInfo, res ast.Expr, x *GNode, depth int
 		if ok2, why2, is := viaHelper(def); is {
 			return ok2, why2
 		}
+		// a copy of another variable (tid := tid, the result variable of a helper written out in place): that variable was
+		// valid where the copy was made
+		if w := objOf(info, def); w != nil && w != v && depth > 0 {
+			if at := g.NodeOf(def); at != nil {
+				return validIDResult(ix, fn, def, at, depth-1)
+			}
+		}
 	}
 	return false, why
 }
